@@ -257,7 +257,7 @@ func checkC13(p *Program, r *Reporter) {
 				segPrm = prm
 			}
 		}
-		carried := 0
+		carried, fromChildren := 0, 0
 		var at token.Pos = cs.Pos()
 		for _, fn := range cluster(cs) {
 			for _, b := range fn.Blocks {
@@ -280,9 +280,30 @@ func checkC13(p *Program, r *Reporter) {
 					if segPrm != nil && localDependsOnParam(p, arg, segPrm) {
 						carried++
 						at = c.Pos()
+						// the generator attaches its event with Fragment.AddEmsg, which puts the box into
+						// Fragment.Children only: a reader of Fragment.Emsgs never sees it
+						q := newDepQuery(p, onField("mp4.Fragment.Children"))
+						q.noParams = true
+						if q.depends(arg, 0) {
+							fromChildren++
+						}
 					}
 				}
 			}
+		}
+		producerUsesAddEmsg := false
+		for _, fn := range cluster(gen) {
+			for _, b := range fn.Blocks {
+				for _, in := range b.Instrs {
+					if c, ok := in.(*ssa.Call); ok && c.Call.StaticCallee() != nil && c.Call.StaticCallee().Name() == "AddEmsg" {
+						producerUsesAddEmsg = true
+					}
+				}
+			}
+		}
+		if carried > 0 && producerUsesAddEmsg {
+			r.Decide(fromChildren > 0, "E5-CHUNKEVENTS", shortFn(cs), "emsg-source", p.pos(at), "the boxes are taken from Fragment.Children, where Fragment.AddEmsg puts them",
+				"the chunk splitter takes the event boxes from Fragment.Emsgs, but the segment generator attaches its event with Fragment.AddEmsg, which updates Fragment.Children only: the generated event is never found", nil)
 		}
 		r.Decide(carried > 0, "E5-CHUNKEVENTS", shortFn(cs), "emsg-carried-over", p.pos(at), "an event box taken from the source segment is added to a chunk fragment",
 			"chunkSegment builds the chunks from the samples only: emsg boxes (SCTE-35 events) attached to the generated segment are dropped in low-latency mode", nil)
